@@ -18,11 +18,9 @@ theorem recover16 (res : UInt16) :
     (let r := _cbor_encode_uint16 res #[0, 0, 0] 0 3 (224 : UInt8)
      UInt16.ofNat ((r.2.getD 1 0).toNat * 256 + (r.2.getD 2 0).toNat)) = res := by
   have hv := res.toNat_lt
-  simp only [_cbor_encode_uint16]
-  have : ¬ ((3 : UInt64) ≤ 2) := by decide
-  simp only [this, decide_false, Bool.false_eq_true, if_false]
+  rw [o7, enc16 _ _ _ _ 7 (by omega), hb_25]   -- via the specification lemma: independent of the generated text
   apply UInt16.toNat_inj.mp
-  simp [C.toU8]
+  simp [encRes, writeList]
   omega
 
 /-- whatever the float, `cbor_encode_half` ends in one call of the 16-bit head encoder with offset 0xE0 -/
